@@ -2,6 +2,7 @@ import XcpProps.C18
 import XcpProps.C12
 import XcpProps.C01
 import XcpProps.C14
+import XcpProofs.PoolFInv
 /-! # C07 — xcp always terminates: no deadlock, no spin, with or without errors
 
 Termination is proved component by component, each over EVERY label sequence (no fairness assumption is needed:
@@ -93,5 +94,28 @@ theorem special_never_opened (src : NodeSpec) (umask : Nat) (nc ex rm : Bool) :
   unfold specialProgram at hc
   cases hk : classifyKind src.kind <;> simp [hk] at hc
   cases ex <;> cases nc <;> cases rm <;> simp at hc <;> (first | (rcases hc with h | h | h <;> simp [h]) | (rcases hc with h | h <;> simp [h]) | simp [hc])
+
+/-- parblock WITH failures (`Xcp.PoolF`: a block job may fail at any moment; the dispatcher may stop with an error at
+any moment without joining the pool): every schedule is still finite, and until everything is done some thread can move -/
+theorem parblock_with_failures_terminates (files : List Nat) (cap workers : Nat) (fs : Bool) :
+    (∀ ls s, PoolF.run (PoolF.init files cap workers fs) ls = some s →
+        ls.length ≤ PoolF.measure (PoolF.init files cap workers fs)) ∧
+    (∀ s, PoolF.Reachable files cap workers fs s → 0 < workers → 0 < cap → PoolF.final s = false → PoolF.enabled s ≠ []) := by
+  refine ⟨fun ls s h => ?_, fun s hr hw hc hf => ?_⟩
+  · have := PoolF.run_measure _ _ ls h; omega
+  · have inv := PoolF.cinv_reachable hr
+    exact PoolF.no_deadlock s (by rw [inv.workers_eq]; exact hw) (by rw [inv.cap_eq]; exact hc) hf
+
+/-- … and failures leak nothing: when all threads are done every handle that was opened has been closed -/
+theorem parblock_with_failures_closes_everything (files : List Nat) (cap workers : Nat) (fs : Bool) (s : PoolF.St)
+    (h : PoolF.Reachable files cap workers fs s) (hf : PoolF.final s = true) :
+    ∀ hd, hd < s.next → PoolF.Event.closed hd ∈ s.log :=
+  PoolF.final_all_closed files cap workers fs s h hf
+
+/-- non-vacuity: a schedule in which the second block of a two-block file fails and the dispatcher aborts with a second
+file still unopened; the run is complete, the handle closed, the failure logged -/
+example : (PoolF.run (PoolF.init [2, 1] 1 1 true)
+    [.openNext, .push, .take, .push, .abort, .stepJob 0, .stepJob 0, .stepJob 0, .take, .failJob 0, .stepJob 0]).map
+      (fun s => (PoolF.final s, s.log.contains (.closed 0), s.log.contains (.failed 0 1), s.next)) = some (true, true, true, 1) := by decide
 
 end Xcp.C07
